@@ -5,10 +5,15 @@ usage: seed_pipeline.py <PROP>/<n>[:extra,extra] ..."""
 import json, shutil, subprocess, sys, time
 from pathlib import Path
 V = Path("/verif")
+S = "/tmp/repo-scratch"   # a detached worktree of /repo HEAD: seeds are applied HERE, /repo itself is never touched
 
 def sh(cmd, **kw):
     return subprocess.run(cmd, shell=True, capture_output=True, text=True, **kw)
 
+import os
+if not Path(S).exists():
+    sh(f"git -C /repo worktree add -q --detach {S} HEAD")
+sh(f"git -C {S} checkout -q --detach $(git -C /repo rev-parse HEAD) ; git -C {S} checkout -q -- . ; git -C {S} reset -q")
 for arg in sys.argv[1:]:
     sid, _, extra = arg.partition(":")
     prop, n = sid.split("/")
@@ -20,24 +25,24 @@ for arg in sys.argv[1:]:
         if (src / f).exists():
             shutil.copy(src / f, dst / f)
     meta = json.loads((dst / "meta.json").read_text()) if (dst / "meta.json").exists() else {}
-    assert sh("git -C /repo status --short").stdout.strip() == "", "/repo not clean"
+    assert sh(f"git -C {S} status --short").stdout.strip() == "", "scratch repo not clean"
     how = "apply patch.diff"
-    r = sh(f"git -C /repo apply {dst}/patch.diff")
+    r = sh(f"git -C {S} apply {dst}/patch.diff")
     if r.returncode != 0 and (dst / "patch.ported.diff").exists():
-        r = sh(f"git -C /repo apply {dst}/patch.ported.diff")
+        r = sh(f"git -C {S} apply {dst}/patch.ported.diff")
         how = "apply patch.ported.diff (the same change ported by hand onto the repaired tree)"
     if r.returncode != 0:
         meta["verification"] = {"applies_to_repaired_tree": False, "error": r.stderr[-500:]}
         (dst / "meta.json").write_text(json.dumps(meta, indent=1))
-        sh("git -C /repo checkout -- . ; git -C /repo reset -q")
+        sh(f"git -C {S} checkout -- . ; git -C {S} reset -q")
         print(sid, "APPLY-FAILED")
         continue
     # the demo must fail on the patched repaired tree as well
-    d = sh(f"PYTHONPATH=/repo /venv/bin/python {dst}/demo.py", timeout=300)
+    d = sh(f"PYTHONPATH={S} /venv/bin/python {dst}/demo.py", timeout=300)
     res = {}
     for p in [prop] + [x for x in extra.split(",") if x]:
         t = time.time()
-        c = sh(f"./check {p} --tier quick", cwd=V, timeout=1800)
+        c = sh(f"VERIF_REPO={S} ./check {p} --tier quick", cwd=V, timeout=1800)
         vio = [l for l in c.stdout.splitlines() if l.startswith("VIOLATION")]
         rep = []
         for l in vio[:3]:
@@ -47,9 +52,9 @@ for arg in sys.argv[1:]:
             except Exception:
                 rep.append({"line": l})
         res[p] = {"exit": c.returncode, "violations": len(vio), "no_failing_input": sum("no-failing-input-found" in l for l in vio), "first": rep, "wall_s": round(time.time() - t)}
-    sh("git -C /repo checkout -- . ; git -C /repo reset -q")
-    assert sh("git -C /repo status --short").stdout.strip() == "", "/repo not restored"
-    meta["verification"] = {"applied_with": f"git -C /repo {how} (repaired tree), undone with git checkout",
+    sh(f"git -C {S} checkout -- . ; git -C {S} reset -q")
+    assert sh(f"git -C {S} status --short").stdout.strip() == "", "scratch repo not restored"
+    meta["verification"] = {"applied_with": f"git -C {S} {how} (scratch worktree of the repaired tree, checks run with VERIF_REPO pointing at it), undone with git checkout",
                             "demo_exit_on_patched_repo": d.returncode, "checks": res,
                             "caught_by": [p for p, v in res.items() if v["violations"] > 0]}
     (dst / "meta.json").write_text(json.dumps(meta, indent=1))
